@@ -203,7 +203,10 @@ func read(r io.Reader) (map[byte][]bucket, error) {
 	var h = map[byte][]bucket{}
 
 	var tag, n byte
-	var lastItemWasDelimiter bool
+	// delimiters counts the delimiters read so far; seen holds its value
+	// at the time the last item of a tag was read
+	var delimiters int
+	var seen = map[byte]int{}
 	for {
 		if err := binary.Read(r, binary.LittleEndian, &tag); err != nil {
 			if err == io.EOF {
@@ -221,19 +224,19 @@ func read(r io.Reader) (map[byte][]bucket, error) {
 		}
 
 		if len(v) > 0 {
-			if l, ok := h[tag]; ok {
-				if lastItemWasDelimiter {
-					h[tag] = append(l, v)
-				} else {
-					// fragment of the value which was read last
-					l[len(l)-1] = append(l[len(l)-1], v...)
-				}
+			if l, ok := h[tag]; ok && seen[tag] == delimiters {
+				// fragment of the value which was read last
+				l[len(l)-1] = append(l[len(l)-1], v...)
 			} else {
-				h[tag] = []bucket{v}
+				// first value of tag, or first after a delimiter
+				h[tag] = append(h[tag], v)
 			}
+			seen[tag] = delimiters
 		}
 
-		lastItemWasDelimiter = tag == 0 && n == 0
+		if tag == 0 && n == 0 {
+			delimiters++
+		}
 	}
 
 	return h, nil
